@@ -47,6 +47,12 @@ ASSUMPTIONS = [
     'continuous start vectors of the optimisers are represented by a finite menu (3 entries)',
     'sigma_k is given for the selected conditions (size len(pattern_idx)), as compare() expects',
     'ridge weight 0 only (the statement names no other)',
+    'model laws are demanded on the parameter domain of each class: any real weights for the '
+    'weighted model, non-negative weights for the interpolation model (its predict_rdm clips '
+    'negative weights, predict does not), a valid index for the selection model; theta=None '
+    'defaults are not compared (ModelInterpolate.predict() and predict_rdm() use different defaults)',
+    'a 1-D sigma_k (variances) is accepted by compare() but documented for no fitter: fitters that '
+    'accept it are judged, rejections are recorded in the evidence notes, not reported',
 ]
 TOL_CLOSED = 1e-7
 TOL_SEARCH = 1e-4
